@@ -254,6 +254,19 @@ pub fn run_app(
             .unwrap_or_else(|| panic!("Failed to open stdout"));
         let cmd_stdout_buf = io::BufReader::new(cmd_stdout);
 
+        // Collect what the command writes to stderr while its stdout is rendered: if nobody
+        // read it, a command with many messages would wait for room in that pipe, and delta
+        // for the end of the command's stdout.
+        let mut cmd_stderr = cmd
+            .stderr
+            .take()
+            .unwrap_or_else(|| panic!("Failed to open stderr"));
+        let stderr_reader = std::thread::spawn(move || {
+            let mut messages = Vec::new();
+            let _ = io::Read::read_to_end(&mut cmd_stderr, &mut messages);
+            messages
+        });
+
         let res = delta(cmd_stdout_buf.byte_lines(), &mut writer, &config);
 
         if let Err(error) = res {
@@ -278,11 +291,8 @@ pub fn run_app(
                 config.error_exit_code
             });
 
-        let mut stderr_lines = io::BufReader::new(
-            cmd.stderr
-                .unwrap_or_else(|| panic!("Failed to open stderr")),
-        )
-        .lines();
+        let messages = stderr_reader.join().unwrap_or_default();
+        let mut stderr_lines = io::BufReader::new(&messages[..]).lines();
         if let Some(line1) = stderr_lines.next() {
             // prefix the first error line with the called subcommand
             eprintln!(
